@@ -765,7 +765,7 @@ Proof.
   unfold td_validate. intros H Init HI.
   destruct (td_check_sound _ _ _ _ _ _ _ _ H Init HI) as (A & B & C).
   split; auto. split; auto. intros sm I. apply C.
-  rewrite map_map. cbn [fst]. rewrite map_id. exact I.
+  rewrite map_map. cbn [fst]. rewrite map_id. apply in_or_app. left. exact I.
 Qed.
 
 Theorem td_bottom_never_entered p voff entries init tpre tpost S delay desc efuel wtos :
